@@ -230,8 +230,8 @@ func cmdLockstep(args []string) error {
 		if err := bq.open(); err != nil {
 			return err
 		}
-		emit(wm, jhead{K: "cfg", Trace: t, Seed: sd, Cfg: mc, Init: []jmsg{}})
-		emit(wq, jhead{K: "cfg", Trace: t, Seed: sd, Cfg: qc, Init: []jmsg{}})
+		emit(wm, jhead{K: "cfg", Trace: t, Seed: sd, Cfg: mc, Init: []jmsg{}, Compiled: bm.compiled, InStore: bm.inStore})
+		emit(wq, jhead{K: "cfg", Trace: t, Seed: sd, Cfg: qc, Init: []jmsg{}, Compiled: bq.compiled, InStore: bq.inStore})
 		emit(wp, map[string]interface{}{"k": "cfg", "trace": t, "seed": sd, "cfg": cfg})
 		tm, tq := newLeaseTab(), newLeaseTab()
 		var prevM, prevQ []jmsg
